@@ -98,6 +98,22 @@ impl Case {
     }
 }
 
+/// Rank 0 - a trivial ciphertext, body only - is a legal argument of the ciphertext-level operations (the
+/// library's decryption handles it explicitly); for key material and key-driven products a rank-0 "key" is
+/// degenerate and not part of any contract, so those ops get rank 1 instead.
+pub fn rank0_ok(op: &str) -> bool {
+    ["glwe_decrypt", "glwe_encrypt_sk", "glwe_encrypt_zero_sk", "glwe_normalize", "glwe_noise", "glwe_rotate", "glwe_lsh", "glwe_rsh", "glwe_mul_xp", "glwe_compressed_encrypt_sk"]
+        .iter()
+        .any(|p| op.starts_with(p))
+}
+
+pub fn fix_rank0(op: &str, shape: &mut Shape) {
+    if !rank0_ok(op) {
+        shape.rank_in = shape.rank_in.max(1);
+        shape.rank_out = shape.rank_out.max(1);
+    }
+}
+
 pub fn random_shape(rng: &mut Rng, thorough: bool) -> Shape {
     // one draw in twelve (one in six in the thorough tier) leaves the small grid: larger rings, many
     // limbs, extreme radices, deep gadget decompositions, rank 4 - thresholds a small grid never crosses
@@ -160,8 +176,9 @@ pub fn random_shape(rng: &mut Rng, thorough: bool) -> Shape {
     .max(b_key * dsize + 1);
     Shape {
         n,
-        rank_in: if wide { rng.range(1, 4) as u32 } else { rng.range(1, 3) as u32 },
-        rank_out: if wide { rng.range(1, 4) as u32 } else { rng.range(1, 3) as u32 },
+        // rank 0 (a trivial ciphertext: body only) is legal for the GLWE-level ops; one draw in twenty-five
+        rank_in: if rng.chance(40) { 0 } else if wide { rng.range(1, 4) as u32 } else { rng.range(1, 3) as u32 },
+        rank_out: if rng.chance(40) { 0 } else if wide { rng.range(1, 4) as u32 } else { rng.range(1, 3) as u32 },
         b_res,
         k_res,
         b_in,
@@ -440,6 +457,7 @@ pub fn generate(seed: u64, idx: u64, thorough: bool) -> Case {
         if backend_name == "FFT64Avx" && shape.n < 8 {
             shape.n = 8;
         }
+        fix_rank0(ops[slot as usize], &mut shape);
         Subject::Core {
             op: ops[slot as usize].to_string(),
             shape,
@@ -624,6 +642,7 @@ pub fn sweep(backend_name: &str, op: &str, count: u64) {
         if let Some(n) = std::env::var("SWEEP_N").ok().and_then(|x| x.parse().ok()) {
             shape.n = n;
         }
+        fix_rank0(op, &mut shape);
         let case = Case {
             backend: backend_name.into(),
             subject: Subject::Core { op: op.into(), shape: shape.clone() },
